@@ -1,9 +1,16 @@
-"""C04 -- parse, lint and fix never crash (kernel only: the two parse limits).   Functions under contract:
-   sqlfluff.core.parser.context: ParseContext.increment_parse_nodes, ParseContext.deeper_match,
-                                 ParseContext._set_terminators, ParseContext._reset_terminators
-The limits raise SQLParseError -- the class the linter's funnels turn into a PRS violation -- and nothing else, and
-`deeper_match` restores the context (depth, segment name, terminators, progress flag) on every normal exit.
-"Nothing raises for any input" over lexer, parser and 70 rules is whole-repository proof and is NOT decided.
+"""C04 -- parse, lint and fix never crash.   Functions under contract (pyvc):
+   the two parse limits (this module)
+     sqlfluff.core.parser.context: ParseContext.increment_parse_nodes, ParseContext.deeper_match,
+                                   ParseContext._set_terminators, ParseContext._reset_terminators
+     The limits raise SQLParseError -- the class the linter's funnels turn into a PRS violation -- and nothing else, and
+     `deeper_match` restores the context (depth, segment name, terminators, progress flag) on every normal exit.
+   the exception funnels (contracts/c04_funnels.py): Linter._parse_tokens (two region contracts), Linter.render_string (region),
+     BaseRunner._handle_lint_path_exception, SequentialRunner.run, ParallelRunner._apply, DelayedException.reraise,
+     ParallelRunner.run (region): against ASSUMED contracts of the guarded callees (which exception classes they may raise) every
+     try/except of these functions is executed symbolically: what the callee may raise is caught and turned into a violation /
+     a DelayedException / a logged error, and nothing but the documented classes (OSError, BdbQuit) leaves.
+"Nothing raises for any input" over lexer, parser and 70 rules is whole-repository proof and is NOT decided: the callee contracts
+of the funnels are assumptions; contracts/c04_bounded.py samples them (labelled stand-ins, not proofs).
 """
 from pyvc.dsl import contract, external, spec, lemma, implies, iff, inline, ref_class, rec_class
 from pyvc.ty import INT, BOOL, Text, TList, TTuple, TOpt, SINK, TOpaque
@@ -90,13 +97,16 @@ class deeper_match:
 TRUSTED = ["the body of a `with ctx.deeper_match(...)` block leaves depth / stack / terminators as it found them (nested "
            "deeper_match calls restore them by this same contract: induction over nesting, not mechanised)"]
 NOT_COVERED = ["everything else that C04 states: exceptions of any class raised inside lexing, parsing or the ~70 rules reach the "
-               "funnels or the caller unexamined; the funnels themselves (Linter._parse_tokens, render_string, runners) are checked "
-               "by syntactic exception-flow obligations and bounded runs (EXTRA/BOUNDED), not proved"]
+               "funnels or the caller unexamined (the funnels are proved against ASSUMED exception classes of their callees; "
+               "bounded runs sample those assumptions)"]
 from . import c04_bounded as _c04b  # noqa: E402
+from . import c04_funnels as _c04f  # noqa: E402  (the funnels under pyvc contracts; registers its contracts on import)
 
+TRUSTED = TRUSTED + list(_c04f.TRUSTED)
+NOT_COVERED = NOT_COVERED + list(_c04f.NOT_COVERED) + list(_c04b.NOT_COVERED)
 EXTRA = list(_c04b.EXTRA)
 BOUNDED = list(_c04b.BOUNDED)
-MUTANTS = list(_c04b.MUTANTS) + [
+MUTANTS = list(_c04b.MUTANTS) + list(_c04f.MUTANTS) + [
     ("nodes_limit_ge", "sqlfluff/core/parser/context.py", "        if self.max_parse_nodes > 0 and self.current_parse_nodes > self.max_parse_nodes:", "        if self.max_parse_nodes > 0 and self.current_parse_nodes > self.max_parse_nodes + 1:"),
     ("nodes_limit_wrong_class", "sqlfluff/core/parser/context.py", "            raise SQLParseError(\n                f\"Maximum parse node count exceeded", "            raise RuntimeError(\n                f\"Maximum parse node count exceeded"),
     ("depth_not_restored", "sqlfluff/core/parser/context.py", "            self.match_depth -= 1\n            # Reset back to old name", "            # Reset back to old name"),
